@@ -111,6 +111,7 @@ func c11Scripts() [][]c11step {
 	s1 := append(append([]c11step{}, base...),
 		P(p9p.MessageTattach{Fid: 10, Afid: nofid, Uname: "u"}),
 		P(p9p.MessageTwalk{Fid: 0, Newfid: 11, Wnames: []string{"d", "e"}}),
+		P(p9p.MessageTclunk{Fid: 11}), // pipelined behind the walk that is still reserving fid 11: waits for that fid
 		P(p9p.MessageTread{Fid: 3, Count: 8}),
 	)
 	s2 := append(append([]c11step{}, base...),
@@ -226,6 +227,7 @@ func (r *c11run) releaseAll() {
 		close(ch)
 	}
 	r.releases = nil
+	r.parking = false // file-system calls made from now on pass straight through
 	r.gmu.Unlock()
 }
 
@@ -546,6 +548,12 @@ func c11Run(w *mon.W, script []c11step, si int, f *c11fault) {
 			settle()
 			flying = r.obs.inFlight() // they completed normally before the write failed
 			inflight = len(flying)
+		}
+		if !r.h.served() && r.h.conn.WriteFailed() {
+			r.bad("hang", "serving-continues-after-write-failure", "a reply write failed (%v) and the process is quiescent, but ServeConn has not returned", r.h.conn.WriteErr)
+			r.releaseAll()
+			r.h.close()
+			return
 		}
 		if !r.h.served() {
 			r.h.cli.Close() // no reply write was left to fail: the peer goes away instead
